@@ -31,10 +31,21 @@ def main():
         if hits:
             print('forbidden constructs in the Coq development:\n' + '\n'.join(hits))
             return 2
-        ok, out = core.build(clean=True)
-        print(out[-3000:])
-        print('BUILD', 'OK' if ok else 'FAILED')
-        return 0 if ok else 2
+        # clean full .vo build (make -k: keep going), then require every file a claimed check needs
+        ok, out = core.build(clean=True, keep_going=True)
+        print(out[-2500:])
+        man = json.loads((core.VERIF / 'MANIFEST.json').read_text())
+        bad = []
+        for c in man['checks']:
+            pid = c['property_id']
+            mod = importlib.import_module('harness.props.%s' % pid.lower())
+            ok2, out2 = core.build_for(['Properties/%s.v' % pid] + ['%s.v' % r.replace('.', '/') for r in mod.REQUIRES])
+            if not ok2:
+                bad.append((pid, out2[-600:]))
+        for pid, why in bad:
+            print('SETUP: files needed by %s do not build: %s' % (pid, why))
+        print('BUILD', 'OK' if not bad else 'FAILED', '(full make %s)' % ('complete' if ok else 'had errors in files no claimed check needs'))
+        return 0 if not bad else 2
     if a.cmd == 'run':
         tier, seed = core.tier_and_seed(a.tier, a.seed)
         hits = core.forbidden_scan()
